@@ -1,5 +1,6 @@
 import SFV.Proofs.Optimize
 import SFV.Proofs.OptimizeExample
+import SFV.Proofs.OptimizeGauss
 import SFV.Gen.OpTable
 
 /-!
@@ -62,6 +63,49 @@ theorem merge_sound_partial {M : Type} [Monoid M] (f : Cmd → M) (dom : List Na
 assumption about it -/
 theorem unlawful_unreachable (c : Cmd) (h : nsOf c = some 1) : c.cls ∉ knownUnlawful :=
   ns1_not_knownUnlawful h
+
+/-! ### the physical instance: Gaussian circuits
+
+`GaussSem.gf θ c` is the channel on first and second moments of all quadratures (hbar = 2) that
+the command `c` implements — `μ ↦ Aμ + d`, `V ↦ AVAᵀ + Y` on the quadratures of its targets —
+with the documented blocks of `Rgate`, `Sgate`, `Pgate`, `Dgate`, `Xgate`, `Zgate`, `Fouriergate`,
+`LossChannel`, `ThermalLossChannel`, the Gaussian preparations, `BSgate`, `S2gate`, `CXgate`,
+`CZgate` (non-Gaussian, matrix-parametrised and measurement commands are place holders).  Its family
+laws are *proved* (`GaussSem.rot_add`, `sq_add`, `shear_add`, `disp_add`, `x_add`, `z_add`,
+`fourier_cancel`, `loss_mul`, `prep_absorb_loc`, … from the angle-addition formulas), commands on
+disjoint modes commute (`GaussSem.gf_comm`), so the Lawful hypothesis of `optimize_sem` is discharged. -/
+
+/-- **the optimiser does not change the Gaussian channel a circuit implements** — for every circuit,
+every valuation `θ` of the symbolic parameters, every linearisation of the optimised grid; no
+hypothesis about the interpretation is left -/
+theorem optimize_gaussian (θ : Nat → Rat) (B : Nat) (l out : List Cmd) (hwf : ∀ c ∈ l, WFc c)
+    (hout : ∀ c ∈ out, c.wires ≠ []) (hrows : ∀ w, gridRow out w = optRow B (gridRow l w)) :
+    sem (GaussSem.gf θ) out = sem (GaussSem.gf θ) l :=
+  optimize_sem (GaussSem.gf θ) (GaussSem.gf_comm θ) (GaussSem.gaussLawful θ) B l out hwf hout hrows
+
+/-- the same through the executable checker -/
+theorem optimize_gaussian_checked (θ : Nat → Rat) (B : Nat) (l out : List Cmd) (hwf : ∀ c ∈ l, WFc c)
+    (h : isOptOutput B l out = true) : sem (GaussSem.gf θ) out = sem (GaussSem.gf θ) l :=
+  optimize_checked_sem (GaussSem.gf θ) (GaussSem.gf_comm θ) (GaussSem.gaussLawful θ) B l out hwf h
+
+/-- **tie to the K3 specification**: the channel of a single-mode block `[[a, b], [c, d]]` on mode
+`k` acts on symmetric xp data exactly as `linMap (rows1 k a b c d)` of `SFV.Model.PhaseSpace`
+(`rotRows`, `squeezeRows`, `lossRows` are such blocks; `SFV.Proofs.GaussNM` ties them to the
+simulator's entrywise updates) -/
+theorem gaussian_block_is_k3_spec (k : Nat) (a b c d : ℝ) (V : Gauss.XP ℝ)
+    (hxx : ∀ i j, V.xx i j = V.xx j i) (hpp : ∀ i j, V.pp i j = V.pp j i) :
+    (GaussSem.loc1 k (GaussSem.m2 a b c d) GaussSem.zero2 GaussSem.zerov).act.run (GaussSem.ofXP V) =
+      GaussSem.ofXP (Gauss.linMap (Gauss.rows1 k a b c d) V) :=
+  GaussSem.loc1_eq_linMap k a b c d V hxx hpp
+
+/-- merge rules of the single-target Gaussian families are sound for the physical interpretation
+(instance of `merge_sound_partial`; `MZgate` is two-mode, so nothing is excluded here) -/
+theorem merge_sound_gaussian (θ : Nat → Rat) (a b : Cmd) (h1 : a.regs.length = 1) (hr : a.regs = b.regs)
+    (hda : a.deps = []) (hdb : b.deps = []) (hK : a.cls ∉ knownUnlawful) :
+    (opMerge a b = .identity → GaussSem.gf θ a * GaussSem.gf θ b = 1) ∧
+    (∀ op, opMerge a b = .merged op →
+      ∀ i, GaussSem.gf θ a * GaussSem.gf θ b = GaussSem.gf θ { op with id := i, regs := a.regs }) :=
+  merge_sound_partial (GaussSem.gf θ) _ (GaussSem.gaussLawful θ) a b h1 hr hda hdb hK
 
 /-- twice the documented Mach–Zehnder matrix `U(φ_in, φ_ex)` with `u = e^{iφ_in}`, `v = e^{iφ_ex}`
 Gaussian integers `(re, im)`: `[[(-1+u)v, i(1+u)], [i(1+u)v, 1-u]]` -/
@@ -190,6 +234,11 @@ transformers on one rational amplitude per mode: translations, scalings, overwri
 a non-commutative monoid), instantiated at the circuit above -/
 example : sem Toy.f exOut = sem Toy.f ex :=
   optimize_checked_sem Toy.f Toy.f_comm (Toy.lawful.mono fun _ _ => trivial) 12 ex exOut (by decide +kernel) (by decide +kernel)
+
+/-- the physical instance at the same circuit: the optimised circuit implements the same Gaussian
+channel, for every value of the measured parameter -/
+example (θ : Nat → Rat) : sem (GaussSem.gf θ) exOut = sem (GaussSem.gf θ) ex :=
+  optimize_gaussian_checked θ 12 ex exOut (by decide +kernel) (by decide +kernel)
 
 /-- a list in which the two rotations were *not* merged, or merged to the wrong angle, is rejected -/
 example : isOptOutput 12 ex ex = false ∧
